@@ -12,15 +12,14 @@ Proof. all_cfg c. Qed.
 Lemma lattice_fixed : forallb (fun c => good_out (run_job jfixed c)) all_cfgs = true.
 Proof. vm_compute. reflexivity. Qed.
 
-Lemma lattice_size : length all_cfgs = 864.
+Lemma lattice_size : length all_cfgs = 1440.
 Proof. vm_compute. reflexivity. Qed.
 
 Lemma run_accepted v c : o_accepted (run_job v c) = accepted v c.
 Proof.
-  unfold run_job. destruct (accepted v c); cbn; [|reflexivity].
-  destruct (sync v c) as [[] ?]; cbn; try reflexivity.
-  - destruct (handler_nil v c && _); reflexivity.
-  - destruct (fix_panic v); reflexivity.
+  unfold run_job, run_once. destruct (accepted v c); cbn; [|reflexivity].
+  destruct (sync v c) as [[] ?]; cbn; try reflexivity;
+    repeat match goal with |- context [if ?b then _ else _] => destruct b; cbn end; reflexivity.
 Qed.
 
 Lemma outcome_lattice (c : cfg) : In c all_cfgs -> accepted jfixed c = true ->
@@ -40,8 +39,8 @@ Proof. all_cfg c. Qed.
 (** each repair removes its own cause *)
 Lemma no_diverge_when_fixed v c : fix_endctx v = true -> fst (sync v c) <> SDiverge.
 Proof.
-  intros H. destruct v as [a b p]. cbn in H. subst a.
-  destruct b, p; destruct c as [s t k g j h kl]; destruct s, t, k, g, j, h, kl; vm_compute; discriminate.
+  intros H. destruct v as [a b p q]. cbn in H. subst a.
+  destruct b, p, q; destruct c as [s t k g j h kl]; destruct s, t, k, g, j, h, kl; vm_compute; discriminate.
 Qed.
 
 Lemma no_nil_handler_when_fixed v c : fix_verify v = true -> handler_nil v c = false.
@@ -60,6 +59,7 @@ Ltac solve_in := vm_compute; repeat (first [left; reflexivity | right]).
 Definition w_f11a := {| c_src := SDataset; c_tr := TJs; c_snk := KDevNull; c_trig := GCron; c_jt := JIncr; c_h := HLog; c_kill := false |}.
 Definition w_f11b := {| c_src := SDataset; c_tr := TNone; c_snk := KMissing; c_trig := GOnChange; c_jt := JIncr; c_h := HLog; c_kill := false |}.
 Definition w_f11b' := {| c_src := SDataset; c_tr := TNone; c_snk := KDevNull; c_trig := GOnChange; c_jt := JIncr; c_h := HBad; c_kill := false |}.
+Definition w_f11d := {| c_src := SDataset; c_tr := TJsPar; c_snk := KDevNull; c_trig := GCron; c_jt := JIncr; c_h := HNone; c_kill := false |}.
 Definition w_f11c := {| c_src := SDataset; c_tr := TPanic; c_snk := KDevNull; c_trig := GCron; c_jt := JIncr; c_h := HNone; c_kill := false |}.
 
 Lemma refuted_wrapper_loop :
@@ -77,3 +77,17 @@ Lemma refuted_panic_kills :
   In w_f11c all_cfgs /\ accepted jcurrent w_f11c = true /\ fst (sync jcurrent w_f11c) = SPanic
   /\ o_alive (run_job jcurrent w_f11c) = false /\ o_result (run_job jcurrent w_f11c) = None.
 Proof. split; [solve_in|]. vm_compute. repeat split. Qed.
+
+Lemma refuted_chunk_panic :
+  In w_f11d all_cfgs /\ accepted jcurrent w_f11d = true /\ fst (sync jcurrent w_f11d) = SPanic
+  /\ o_alive (run_job jcurrent w_f11d) = false /\ o_result (run_job jcurrent w_f11d) = None
+  /\ run_job jfixed w_f11d = {| o_accepted := true; o_alive := true; o_result := Some RSuccess; o_ticket := true |}.
+Proof. split; [solve_in|]. vm_compute. repeat split. Qed.
+
+(** a filtering transform that empties a batch + a rejecting sink + log handler: the empty batch is not bisected
+    (nothing to hand to the handler), the error is remembered, the run is recorded as failed *)
+Definition w_empty := {| c_src := SSample; c_tr := TEmpty; c_snk := KMissing; c_trig := GCron; c_jt := JIncr; c_h := HLog; c_kill := false |}.
+Lemma empty_batch_rejected :
+  In w_empty all_cfgs
+  /\ run_job jfixed w_empty = {| o_accepted := true; o_alive := true; o_result := Some RFailure; o_ticket := true |}.
+Proof. split; [solve_in|]. vm_compute. reflexivity. Qed.
